@@ -27,6 +27,7 @@ from typing import Any
 from xml.etree.ElementTree import QName
 
 from framework import Corr, Oracle, err, ok
+from xsdata.exceptions import SerializerError
 from xsdata.formats.dataclass.serializers import PycodeSerializer
 from xsdata.models.datatype import (
     XmlBase64Binary,
@@ -336,7 +337,10 @@ def impl_code(a):
         if any(d[k] != e[k] for k in d):
             raise RuntimeError(f"harness self-check: class description differs for {e['path']}")
     var = a.get("var", "obj")
-    text = _SER.render(obj, var)
+    try:
+        text = _SER.render(obj, var)
+    except SerializerError:
+        return ok({"text": "RAISES:SerializerError", "outcome": "refused:SerializerError"})
     outcome, _, _ = run_source(text, var, obj)
     return ok({"text": text, "outcome": outcome})
 
@@ -367,7 +371,7 @@ def compare_code(mo, io, a):
     STATS["declined"] += mo["ok"]["outcome"] == "unmodelled"
     if not h.get("wf"):
         return False
-    if all(h.get(k) for k in ("wf", "dom", "imports")):
+    if all(h.get(k) for k in ("wf", "dom", "renders")):
         STATS["claimed"] += 1
         STATS["claimed_equal"] += io["ok"]["outcome"] == "equal"
         if io["ok"]["outcome"] != "equal" or mo["ok"]["outcome"] != "equal":
@@ -1081,84 +1085,52 @@ def in_domain(a):
     return True
 
 
+def graph_name_clash(obj):
+    """Own traversal of the object graph (everything reachable, elided or not):
+    does one outermost class name belong to two modules?  Only then may
+    `render` refuse the object."""
+    names: dict[str, set] = {}
+    seen = set()
+
+    def visit(o):
+        if id(o) in seen:
+            return
+        seen.add(id(o))
+        t = type(o)
+        names.setdefault(t.__qualname__.split(".")[0], set()).add(t.__module__)
+        if isinstance(o, (list, tuple, set, frozenset)):
+            for x in o:
+                visit(x)
+        elif isinstance(o, dict):
+            for k, v in o.items():
+                visit(k)
+                visit(v)
+        elif is_dataclass(o) and not isinstance(o, type):
+            for f in fields(o):
+                visit(getattr(o, f.name, None))
+
+    visit(obj)
+    return sorted(n for n, ms in names.items() if len(ms) > 1)
+
+
 def oracle_check(a):
     if not in_domain(a):
         return None
     b, obj = real_case(a)
     var = a.get("var", "obj")
-    text = PycodeSerializer().render(obj, var)
+    try:
+        text = PycodeSerializer().render(obj, var)
+    except SerializerError as e:
+        # an explicit refusal is acceptable only for a graph that really holds
+        # two classes of one name (ASSUMPTIONS); anything else is a violation
+        if graph_name_clash(obj):
+            return None
+        return f"render refused an object graph without any class-name clash: {e}"
     outcome, detail, got = run_source(text, var, obj)
     if outcome.startswith("exc:") or outcome == "unbound":
         return f"exec of the rendered source raised {detail}"
     if not same_value(got, obj):
         return f"rendered source evaluates to {got!r}, original is {obj!r}"
-    return None
-
-
-def has_import_clash(a):
-    """do the *emitted* import lines bind one name from two modules, or rebind
-    the builtin `float` that the source calls?"""
-    b, obj = real_case(a)
-    text = PycodeSerializer().render(obj, a.get("var", "obj"))
-    head, _, body = text.partition("\n\n\n")
-    seen = {}
-    for line in head.split("\n"):
-        parts = line.split()
-        if len(parts) == 4 and parts[0] == "from" and parts[2] == "import":
-            seen.setdefault(parts[3], set()).add(parts[1])
-    if "float" in seen and 'float("' in body:
-        return True
-    if ("set" in seen and "set()" in body) or ("frozenset" in seen and "frozenset()" in body):
-        return True
-    return any(len(v) > 1 for v in seen.values())
-
-
-def rename_clashes(a):
-    """give every module-level class name that is used by two modules (or is
-    `float`) a unique name, consistently in the world and in the values"""
-    taken = {"float", "QName", "Decimal", "set", "frozenset"} | {type(o).__name__ for o in OPAQUES + BYTES}
-    ren = {}
-    for e in a["world"]:
-        key = (e["module"], e["path"][0])
-        if key in ren or e.get("real"):
-            continue
-        n = e["path"][0]
-        if n in taken and not any(k[1] == n and k[0] == e["module"] for k in ren):
-            i = 2
-            while f"{n}_{i}" in taken:
-                i += 1
-            ren[key] = f"{n}_{i}"
-        else:
-            ren[key] = n
-        taken.add(ren[key])
-
-    def walk(x):
-        if isinstance(x, list):
-            return [walk(y) for y in x]
-        if isinstance(x, dict):
-            y = {k: walk(v) for k, v in x.items()}
-            if "module" in y and isinstance(y.get("path"), list) and y["path"]:
-                new = ren.get((y["module"], y["path"][0]))
-                if new is not None:
-                    y["path"] = [new] + y["path"][1:]
-            return y
-        return x
-
-    return walk(a)
-
-
-def covered(a, msg):
-    """A failing input belongs to the one remaining known finding when the
-    *emitted* import lines bind one name twice (a predicate on the
-    implementation's output) *and* the property holds once the clashing classes
-    are renamed - so nothing else is wrong with it."""
-    try:
-        if not has_import_clash(a):
-            return None
-        if oracle_check(rename_clashes(a)) is None:
-            return "C18-import-name-clash"
-    except Exception:  # noqa: BLE001
-        return None
     return None
 
 
@@ -1171,55 +1143,11 @@ def gen_oracle(rng, tier):
 
 
 ORACLES = [
-    Oracle("c18.roundtrip", gen_oracle, oracle_check, covered=covered, from_ops=("c18.code",)),
+    Oracle("c18.roundtrip", gen_oracle, oracle_check, from_ops=("c18.code",)),
 ]
 
-
-# ---------------------------------------------------------------------------
-# known findings: replayed on the real code, independent of the JSON builder
-# ---------------------------------------------------------------------------
-_FIND_SRC = '''
-from dataclasses import dataclass, field
-from enum import Enum
-from typing import Any
-
-@dataclass
-class Outer:
-    class Inner(Enum):
-        A = 1
-    x: Any = None
-    t: tuple = field(default_factory=tuple)
-
-@dataclass
-class Address:
-    x: Any = None
-    {extra}: int = 0
-'''
-
-
-def _scratch(name, extra):
-    m = types.ModuleType(name)
-    sys.modules[name] = m
-    exec(_FIND_SRC.replace("{extra}", extra), m.__dict__)  # noqa: S102
-    return m
-
-
-def _replay(obj):
-    text = PycodeSerializer().render(obj)
-    outcome, detail, got = run_source(text, "obj", obj)
-    return text, outcome, detail
-
-
-def finding_clash():
-    ma, mb = _scratch("c18find_a", "y"), _scratch("c18find_b", "w")
-    _, o1, _ = _replay(ma.Address(x=mb.Address(w=1)))
-    _, o2, d2 = _replay(mb.Address(x=ma.Address(y=1)))
-    return o1 == "unequal" and o2 == "exc:TypeError", f"{o1}/{o2} {d2}"
-
-
-FINDINGS = {
-    "C18-import-name-clash": finding_clash,
-}
+# no listed finding is left: every C18 defect found so far is repaired in /repo
+FINDINGS = {}
 
 _RULE = (
     "hand-picked cases (every repr_object/literal_value/build_imports branch, each remaining and each repaired defect, cross-type default elision), "
